@@ -214,6 +214,18 @@ func execC14entry(x *X) {
 					env.Signatures = nil
 					err := env.Sign(k)
 					x.checkGoblErr("Sign", where, err)
+					if err == nil {
+						// accepted: then what was signed must survive storage and verify with that key
+						x.Probe("other-kind-key-accepted")
+						back, perr := ParseEnv(Marshal(env))
+						if perr != nil {
+							x.Violate("signed-but-unreadable", "Envelope.Sign accepted a %s key, but the serialised envelope cannot be read back: %v\n  %s", trunc(kj, 60), perr, where)
+						} else if verr := back.Verify(k.Public()); verr != nil {
+							x.Violate("signed-but-unverifiable", "Envelope.Sign accepted a %s key, but the stored envelope does not verify with its public key: %v\n  %s", trunc(kj, 60), verr, where)
+						}
+					} else {
+						x.Probe("other-kind-key-refused")
+					}
 					_, _ = dsig.NewSignature(k, map[string]string{"a": "b"})
 				})
 				path, body = "/bulk", append(js(map[string]any{"action": "sign", "req_id": "k", "payload": map[string]any{"data": docOnly, "privatekey": json.RawMessage(kj)}}), '\n')
